@@ -1,5 +1,5 @@
 (* C11 — claims are released only if the validator accepts; built-in validators are exact. *)
-From PV Require Import Bytes Result Text Tokens TokensProofs Validation ValidationProofs.
+From PV Require Import Bytes Result Text Tokens TokensProofs Validation ValidationProofs ClaimsBuilder.
 Local Open Scope Z_scope.
 
 (* unsealing returns claims only when the supplied validator accepted exactly those claims *)
@@ -83,6 +83,31 @@ Example C11_boundary :
   validate (VTimeLeeway 980 10) c = Ok tt /\ validate (VTimeLeeway 979 10) c = Err ClaimsError.
 Proof. vm_compute. repeat split. Qed.
 
+(* ---- the claim builder (RegisteredClaims::new and the setters): what it builds is valid exactly in the window
+        [now, now + d], has an expiry, and carries what the setters put in; `now + d` outside jiff's range panics ---- *)
+Theorem C11_builder_valid_window : forall now d c t,
+  claims_new now d = Ok c -> (validate (VTime t) c = Ok tt <-> (now <= t <= now + d)%Z).
+Proof. exact builder_valid_window. Qed.
+Theorem C11_builder_has_expiry : forall now d c, claims_new now d = Ok c -> validate VHasExpiry c = Ok tt.
+Proof. exact builder_has_expiry. Qed.
+Theorem C11_builder_total_in_range : forall now d, ts_ok (now + d) = true -> exists c, claims_new now d = Ok c.
+Proof. exact builder_total_in_range. Qed.
+Theorem C11_builder_setters_accepted : forall c s,
+  validate (VFromIssuer s) (from_issuer c s) = Ok tt /\
+  validate (VForAudience s) (for_audience c s) = Ok tt /\
+  validate (VForSubject s) (for_subject c s) = Ok tt.
+Proof. exact setters_are_accepted. Qed.
+Theorem C11_builder_setters_reject_other_values : forall c s s', s <> s' ->
+  validate (VFromIssuer s') (from_issuer c s) = Err ClaimsError /\
+  validate (VForAudience s') (for_audience c s) = Err ClaimsError /\
+  validate (VForSubject s') (for_subject c s) = Err ClaimsError.
+Proof. exact setters_reject_other_values. Qed.
+
+Print Assumptions C11_builder_valid_window.
+Print Assumptions C11_builder_has_expiry.
+Print Assumptions C11_builder_total_in_range.
+Print Assumptions C11_builder_setters_accepted.
+Print Assumptions C11_builder_setters_reject_other_values.
 Print Assumptions C11_released_only_if_validated.
 Print Assumptions C11_validator_rejection_is_returned.
 Print Assumptions C11_time.
